@@ -44,6 +44,17 @@ def seqreset_compare_rule(ctx, prog, RID):
               'number back and already delivered messages are accepted again' % (bad[0][1].text() if bad and bad[0][1] is not None else '?'))
 
 
+def decision_expr(prog, f, e):
+    """the expression a bool local is initialised from, seen through a predicate helper of the unit that is handed the message (single return)"""
+    es = e.strip(casts=True)
+    if es.is_call and es.callee_qp and es.args and len(f.param_ids) > 1 and any(q.refers_to_decl(a_, f.param_ids[1]) for a_ in es.args):
+        for h_ in prog.fns(es.callee_qp):
+            rr_ = [x for x in h_.all_nodes() if x.k == 'ReturnStmt' and x.children]
+            if h_.tu is f.tu and len(rr_) == 1:
+                return rr_[0].children[0]
+    return e
+
+
 def reset_by_value_rule(ctx, prog, RID):
     """the acceptor resets its numbers only for ResetSeqNumFlag = Y: the decision reads the field's VALUE, not merely its presence"""
     f = prog.fn1(S + 'handle_logon')
@@ -54,9 +65,17 @@ def reset_by_value_rule(ctx, prog, RID):
             for dd, init in n.r.get('decls', []):
                 if init >= 0 and f.tu.types[f.tu.decls[dd]['t']]['k'] == 'bool':
                     e = f.node(init)
+                    es = e.strip(casts=True)
+                    if es.is_call and es.callee_qp and es.args and any(q.refers_to_decl(a_, f.param_ids[1]) for a_ in es.args):
+                        # a predicate helper of the unit handed this message: its single return expression is the decision
+                        for h_ in prog.fns(es.callee_qp):
+                            rr_ = [x for x in h_.all_nodes() if x.k == 'ReturnStmt' and x.children]
+                            if h_.tu is f.tu and len(rr_) == 1:
+                                ctx.saw(h_)
+                                e = rr_[0].children[0]
                     if any(c.callee_qp == 'FIX8::MessageBase::have' and c.args and c.args[0].strip(casts=True).value == 141 for c in q.calls_in(e)) or \
                             any(q.field_num((x.type or {}).get('c', '')) == 141 for x in e.walk()) or \
-                            any(x.k == 'DeclRefExpr' and x.decl and q.field_num(f.tu.types[x.decl['t']]['c']) == 141 for x in e.walk()):
+                            any(x.k == 'DeclRefExpr' and x.decl and q.field_num(x.fn.tu.types[x.decl['t']]['c']) == 141 for x in e.walk()):
                         loc = (dd, e)
     ctx.need(loc is not None, 'handle_logon: the reset decision (a bool initialised from ResetSeqNumFlag 141) not found')
     e = loc[1]
